@@ -3,20 +3,19 @@ package c20
 import (
 	"context"
 	"fmt"
-	"runtime"
-	"strings"
 	"testing"
 	"time"
 
 	"github.com/sourcenetwork/defradb/client"
+	"github.com/sourcenetwork/defradb/event"
+	coreblock "github.com/sourcenetwork/defradb/internal/core/block"
 	"github.com/sourcenetwork/defradb/verifharness/hx"
 )
 
 func TestProbe(t *testing.T) {
 	n := hx.MustMemNode()
 	defer n.Close()
-	_, err := n.DB.AddSchema(n.Ctx, `type Users @branchable { age: Int  tag: String  mk: Boolean  u: Int @index(unique: true) }
-	type Things { age: Int tag: String mk: Boolean u: Int @index(unique: true)}`)
+	_, err := n.DB.AddSchema(n.Ctx, `type Users { age: Int  tag: String  mk: Boolean  u: Int @index(unique: true) }`)
 	if err != nil {
 		t.Fatal(err)
 	}
@@ -31,9 +30,9 @@ func TestProbe(t *testing.T) {
 		}
 		return r.Subscription
 	}
-	s1 := open(`subscription { Users { _docID age tag _version { cid height } } }`)
-	s2 := open(`subscription { Users(filter: {_or: [{mk: {_eq: true}}, {age: {_gt: 5}}]}) { _docID age tag } }`)
-	s3 := open(`subscription { Things { _docID age } }`)
+	s1 := open(`subscription { Users(filter: {u: {_ge: 2}}) { _docID age u } }`)
+	s2 := open(`subscription { Users(filter: {_or: [{mk: {_eq: true}}, {u: {_ge: 2}}]}) { _docID age u } }`)
+	s3 := open(`subscription { Users(filter: {_and: [{age: {_ge: 0}}, {u: {_ge: 2}}]}) { _docID age u } }`)
 	show := func(name string, ch <-chan client.GQLResult) {
 		for {
 			select {
@@ -48,45 +47,28 @@ func TestProbe(t *testing.T) {
 			}
 		}
 	}
+	var evs []event.Update
 	do := func(q string) {
 		r := n.Exec(q)
 		fmt.Println("EXEC", q, "->", hx.Canon(r.Data), r.Err(), trimS(r.Panic))
 		for _, e := range tap.Take() {
 			fmt.Printf("  EVT doc=%q cid=%s col=%s\n", e.DocID, e.Cid, e.CollectionID)
+			evs = append(evs, e)
 		}
 		show("  s1", s1)
 		show("  s2", s2)
 		show("  s3", s3)
 	}
-	do(`mutation { create_Users(input: {mk: true}) { _docID } }`)
-	do(`mutation { create_Users(input: [{age: 3, tag: "a", u: 1}, {age: 9, tag: "b", u: 2}]) { _docID } }`)
-	do(`mutation { create_Things(input: [{age: 3, tag: "a", u: 1}]) { _docID } }`)
-	do(`mutation { update_Users(filter: {age: {_lt: 100}}, input: {tag: "x"}) { _docID } }`)
-	do(`mutation { update_Users(filter: {age: {_ne: 100}}, input: {tag: "y"}) { _docID } }`)
-	do(`mutation { update_Users(filter: {tag: {_in: ["y", "q"]}}, input: {age: 2}) { _docID } }`)
-	do(`mutation { create_Users(input: {age: 7, u: 1}) { _docID } }`)
-	do(`mutation { a: create_Users(input: {age: 7, u: 10}) { _docID } b: create_Users(input: {age: 7, u: 1}) { _docID } }`)
-	do(`mutation { a: create_Users(input: {age: 7, u: 10}) { _docID } b: update_Users(filter: {u: {_eq: 10}}, input: {age: 8}) { _docID } }`)
-	do(`mutation { upsert_Users(filter: {u: {_eq: 77}}, create: {age: 1, u: 77}, update: {age: 2}) { _docID } }`)
-	do(`mutation { upsert_Users(filter: {u: {_eq: 77}}, create: {age: 1, u: 77}, update: {age: 2}) { _docID } }`)
-	do(`mutation { delete_Things(filter: {age: {_eq: 3}}) { _docID } }`)
-	fmt.Println("---- delete on Users")
-	done := make(chan struct{})
-	go func() {
-		do(`mutation { delete_Users(filter: {u: {_eq: 77}}) { _docID } }`)
-		close(done)
-	}()
-	select {
-	case <-done:
-	case <-time.After(5 * time.Second):
-		fmt.Println("delete hung")
-	}
-	buf := make([]byte, 1<<20)
-	buf = buf[:runtime.Stack(buf, true)]
-	for _, g := range strings.Split(string(buf), "\n\n") {
-		if strings.Contains(g, "handleSubscription") {
-			fmt.Println(g)
-		}
+	do(`mutation { create_Users(input: [{age: 3, tag: "a", u: 1}, {age: 9, tag: "b", u: 5}]) { _docID } }`)
+	s4 := open(`subscription { Users { _docID age u _version { cid } } }`)
+	bogus, _ := coreblock.GetLinkPrototype().Prefix.Sum([]byte("sentinel-1"))
+	for _, d := range []string{evs[0].DocID, "bae-00000000-0000-5000-8000-000000000000", "x"} {
+		fmt.Println("--- sentinel with doc", d)
+		n.DB.Events().Publish(event.NewMessage(event.UpdateName, event.Update{DocID: d, Cid: bogus, CollectionID: evs[0].CollectionID, IsRetry: true}))
+		show("  s1", s1)
+		show("  s2", s2)
+		show("  s3", s3)
+		show("  s4", s4)
 	}
 }
 
